@@ -182,6 +182,20 @@ pub fn c11(a: &Args) {
         let docs: Vec<(Vec<u8>, ReaderCfg)> = calls.iter().map(|e| { let d = serialize_salted(e, 0, 0); (d.bytes, d.cfg) }).collect();
         let (base, _) = run_session(&docs, Feed::Whole);
         sessions += 1;
+        // the same bytes with a byte-order mark in front, through readers whose first chunk is shorter than the mark
+        {
+            let bom: Vec<(Vec<u8>, ReaderCfg)> = docs.iter().map(|(b, c)| { let mut v = vec![0xEF, 0xBB, 0xBF]; v.extend_from_slice(b); (v, *c) }).collect();
+            let (bom_base, _) = run_session(&bom, Feed::Whole);
+            for feed in [Feed::Chunk(1), Feed::Chunk(2), Feed::BufReader(1), Feed::BufReader(2), Feed::Chunk(3)] {
+                let (f, _) = run_session(&bom, feed);
+                applied += 1;
+                *kinds.entry("byte-order mark, small first chunk".to_string()).or_default() += 1;
+                if f != bom_base {
+                    mismatches.push(json!({"kind": "rewrite", "class": "c11", "rewrite": "same bytes (with a byte-order mark), another buffer size", "feed": format!("{:?}", feed),
+                        "docs": docs_json(&bom), "rewritten_docs": docs_json(&bom), "expected": bom_base.to_json(), "actual": f.to_json()}));
+                }
+            }
+        }
         let mut check = |what: String, ndocs: Vec<(Vec<u8>, ReaderCfg)>, feed: Feed, mismatches: &mut Vec<Value>| {
             let (f, _) = run_session(&ndocs, feed);
             applied += 1;
